@@ -26,7 +26,10 @@ mass.py / density.py / util.py, on every run:
    enriched elements, revised densities / abundances, D and T always, two densities revised to exactly 0:
    known, so n = 0 rather than "unknown"; generated density tables carry zero entries too) – the relations
    rho_iso = rho*m_iso/m, n = rho*N_A/m, n*d^3 = 1e24 on the values the table returns now – and
-   then re-initialised with `mass.init / density.init(table, reload=True)`: the full sweep again.
+   then re-initialised with `mass.init / density.init(table, reload=True)`: the full sweep again;
+8. private tables whose loaders were called in another order (`INIT_ORDERS`: density before mass, density - read -
+   mass, both twice without reload): the full sweep on each; `parse_uncertainty` on intervals with a limit of
+   exactly zero (`range0`, the CIAAW ranges of 36-Ar, 38-Ar, 204-Pb).
 """
 from __future__ import annotations
 
@@ -665,6 +668,21 @@ def gen_unc_text(rng, kinds, quirk=False):
         w = rng.choice([0.0, 0.001, 0.02, 1.5])
         d = rng.randint(2, 6)
         return "[%.*f,%.*f]" % (d, a, d, a + w)
+    if k == "range0":
+        # an interval one of whose limits is exactly zero (the CIAAW ranges of 36-Ar, 38-Ar, 204-Pb are such):
+        # still [low,high] = midpoint with width (high-low)/sqrt(12); a nominal value of zero is still [nominal]
+        d = rng.randint(0, 6)
+        zero = rng.choice(["%.*f" % (d, 0.0), "0", "0.0", "0.", ".0", "0e0", "-0.0", "+0", "000"])
+        other = "%.*f" % (d, float(gen_number(rng, 0.0001, 50.0)))
+        form = rng.random()
+        sp = rng.choice(["", "", " "])
+        if form < 0.55:
+            return "[%s,%s%s]" % (zero, sp, other)
+        if form < 0.75:
+            return "[-%s,%s%s]" % (other, sp, zero)
+        if form < 0.9:
+            return "[%s,%s%s]" % (zero, sp, rng.choice([zero, "0", "0.0"]))
+        return "[%s]" % zero
     v = gen_number(rng)
     dec = len(v.split(".")[1]) if "." in v else 0
     r = rng.random()
@@ -895,7 +913,10 @@ def run_generated(run: Run, cases, symbols, nm, nmu, na, mass, density):
 PU_FIXED = ["", "23", "23.0035(12)", "23(1)", "23.0(1.0)", "23(1.0)", "[289]", "[28.084,28.086]",
             "5.03987(215)#", "12.0(0)", "18.7(28)", "0.975(60)", "1.0078250319000(100)", "6.0E-6",
             "1e3", ".5", "5.", "-3.7409(11)", "+2.5", " 7.5 ", "[ 1.5 , 2.5 ]", "[1,2,3]", "1.5(2)(3)",
-            "abc", "1.2.3", "(5)", "[", "[]", "1.5(", "1.5()", "1.5(x)", "--1", "1e", "1e+", "e5", "."]
+            "abc", "1.2.3", "(5)", "[", "[]", "1.5(", "1.5()", "1.5(x)", "--1", "1e", "1e+", "e5", ".",
+            # intervals with a limit of exactly zero (composition table: 36-Ar, 38-Ar, 204-Pb), a zero nominal value
+            "[0.0000,0.0207]", "[0.000,0.043]", "[0.0000,0.0158]", "[0,1]", "[0.0,0.0]", "[-0.5,0.0]", "[0]", "[0.000]",
+            "0(0)", "0.0(5)", "0"]
 
 
 def check_parse_uncertainty(run: Run, parse_uncertainty, n):
@@ -903,6 +924,8 @@ def check_parse_uncertainty(run: Run, parse_uncertainty, n):
     for _ in range(n):
         cases.append(gen_unc_text(run.rng, ["valunc", "valunc", "plain", "nominal", "range"],
                                   quirk=run.rng.random() < 0.3))
+    for _ in range(max(20, n // 10)):
+        cases.append(gen_unc_text(run.rng, ["range0"]))
     rep = run_driver("loader", ["pu " + P.hexs(c) for c in cases])
     for c, r in zip(cases, rep):
         try:
@@ -915,7 +938,9 @@ def check_parse_uncertainty(run: Run, parse_uncertainty, n):
         ok = (impl == "ERR") == (model == "ERR")
         if ok and impl != "ERR":
             ok = P.same(model[0], impl[0]) and P.same(model[1], impl[1])
-        run.count(key=("pu", c), nontrivial=("(" in c or "[" in c), tag="parse_uncertainty")
+        zero_bound = c.startswith("[") and any(P.observe(lambda t=t: float(t)) == 0 for t in c.strip("[] ").split(","))
+        run.count(key=("pu", c), nontrivial=("(" in c or "[" in c),
+                  tag="parse_uncertainty:zero-bound" if zero_bound else "parse_uncertainty")
         if not ok:
             run.disagree("parse_uncertainty", dict(kind="pu", text=c), model, impl)
             # the property: the documented notations
@@ -944,6 +969,26 @@ def setup(pt):
     exp = Expect(R.read_iso_mass(src["isotope_mass"]), R.read_element_mass(src["element_mass"]),
                  R.read_abundance(src["isotope_abundance"]), dens_rows, nm, nmu, symbols)
     return src, dens_rows, nm, nmu, na, symbols, exp
+
+
+# label -> (description, steps); 'd' = density.init(table), 'm' = mass.init(table), 'r' = read what is there
+INIT_ORDERS = {
+    "private-density-first": ("density.init(table) before mass.init(table)", "dm"),
+    "private-density-read-mass": ("density.init(table), the densities read, then mass.init(table)", "drm"),
+    "private-init-twice": ("mass.init, density.init, then both once more without reload", "mdrmd"),
+    "private-density-twice-mass": ("density.init twice, then mass.init", "ddm"),
+}
+
+
+def init_in_order(tbl, label, mass, density):
+    for step in INIT_ORDERS[label][1]:
+        if step == "d":
+            density.init(tbl)
+        elif step == "m":
+            mass.init(tbl)
+        else:
+            for el in tbl:
+                P.observe(lambda: el.density), P.observe(lambda: el.mass), P.observe(lambda: el.isotopes)
 
 
 def run(run: Run) -> int:
@@ -980,6 +1025,18 @@ def run(run: Run) -> int:
     density.init(priv)
     sweep(run, "private-inspected", priv, exp, src, dens_rows, na, nontrivial_keys)
     P.drop_private(priv)
+    # private tables whose loaders were called in another order: "any freshly initialised private table"
+    for label in sorted(INIT_ORDERS):
+        priv = P.fresh_private("c06")
+        try:
+            init_in_order(priv, label, mass, density)
+        except Exception as e:  # noqa
+            run.violation("initialising a private table (%s: %s) raises %s: %s"
+                          % (label, INIT_ORDERS[label][0], type(e).__name__, str(e)[:120]), dict(table=label), observable="init")
+            P.drop_private(priv)
+            continue
+        sweep(run, label, priv, exp, src, dens_rows, na, nontrivial_keys)
+        P.drop_private(priv)
     # a private table that was read, revised by its owner, and re-initialised with reload=True
     revise_and_reload(run, exp, src, dens_rows, na, nontrivial_keys, mass, density)
     run.exhaustive = True
@@ -1033,8 +1090,12 @@ def replay(data) -> int:
                 if inp.get("table") == "private-inspected":
                     for el in tbl:
                         _ = el.isotopes, [iso.isotope for iso in el]
-                mass.init(tbl)
-                density.init(tbl)
+                if inp.get("table") in INIT_ORDERS:
+                    print(" table initialised as:", INIT_ORDERS[inp["table"]][0])
+                    P.observe(lambda: init_in_order(tbl, inp["table"], mass, density))
+                else:
+                    mass.init(tbl)
+                    density.init(tbl)
             z, a = inp.get("z", 0), inp.get("a", 0)
             print(" oracle on the real code:", oracle_atom(exp, tbl, z, a, na))
             if inp.get("route") == "ion":
